@@ -676,3 +676,13 @@ func MapWrite(m any) {
 		}
 	}
 }
+
+// HasFailure reports whether this execution already recorded a failure whose key starts with prefix.
+func (x *X) HasFailure(prefix string) bool {
+	for _, f := range x.fails {
+		if strings.HasPrefix(f.Key, prefix) {
+			return true
+		}
+	}
+	return false
+}
